@@ -158,6 +158,8 @@ PROPS["C04"] = dict(
     explanation="log of up to 3 changes (all six kinds in the batch run) over 2 ids; replica B replays all bytes with independent map iteration orders; replica C has applied any prefix <= cut, restores the snapshot taken on A after entry cut (every cut 0..L), applies the rest; contents compared id by id, outcomes on A compared with the sequential reference",
     runs={
         "quick": [
+            # a replica that applied a prefix, was removed from the partition and added again in the same process replays the whole log
+            dict(pkg="./storage", entry="VerifC04", bounds="ops=3,kinds=3,ids=1,reload=1", reach=["end", "reloaded"]),
             dict(pkg="./storage", entry="VerifC04", bounds="ops=3,metashapes=1,kinds=3,ids=3,maxlevel=0", reach=["end"]),
             dict(pkg="./storage", entry="VerifC04", bounds="ops=3,metashapes=2,kinds=3,ids=2,maxlevel=0", reach=["end"]),
             dict(pkg="./storage", entry="VerifC04", bounds="ops=1,metashapes=2,kinds=6,maporder=1,ids=2,maxlevel=1", reach=["end"]),
@@ -270,7 +272,8 @@ PROPS["C18"] = dict(
                   dict(pkg=".", entry="VerifC14Raft", bounds="members=2", unwind=4000, no_native=True, reach=["settled", "restarted", "end"])],
         "thorough": [dict(pkg="./storage", entry="VerifC18", bounds="preempt=3,race=1", reach=["drivers-returned", "end"]),
                      dict(pkg="./storage", entry="VerifC18", bounds="preempt=2,replicaless=1,race=1", reach=["drivers-returned", "end"]),
-                     dict(pkg=".", entry="VerifC14Raft", bounds="members=3,maxp=2", unwind=4000, no_native=True, max_seconds=5400, reach=["settled", "restarted", "end"])],
+                     dict(pkg="./storage", entry="VerifC18Catalogue", bounds="preempt=0", unwind=400, no_native=True, reach=["drivers-returned", "end"]),
+                     dict(pkg=".", entry="VerifC14Raft", bounds="members=3", unwind=4000, no_native=True, max_seconds=5400, reach=["settled", "restarted", "end"])],
     },
     outside="in the scripted-driver harness the watched partitions live elsewhere (loadRaft/unloadRaft/proposeAddNode are not exercised there) and its raft commits at once; the real-raft harness (VerifC14Raft) covers restart with existing datasets, a join during creates/deletes, local partitions and the allocator's proposals, within: 2 members (3 thorough), <=2 datasets with 1 partition, one restart, one message fault (thorough), one deterministic goroutine schedule per history",
     assumptions=COMMON_ASSUME + ["data races: vector-clock happens-before detection (verifrt.RaceDetect) on every explored schedule; the harness' own recording objects are guarded by verifrt.HarnessLock","sync.RWMutex is modelled with Go's writer preference (a pending Lock blocks new RLocks)"],
@@ -353,8 +356,9 @@ PROPS["C14"] = dict(
             dict(pkg=".", entry="VerifC14Restart", bounds="preempt=1,det=0,maxcreates=1", max_seconds=3000, no_native=True, reach=["restarted", "end"]),
             dict(pkg=".", entry="VerifC14Cluster", bounds="members=3", no_native=True, max_seconds=3000, reach=["settled", "restarted", "partition-with-two-replicas", "end"]),
             dict(pkg="./storage", entry="VerifC14", bounds="ops=4,datasets=1,replicas=3", reach=["end"]),
-            dict(pkg=".", entry="VerifC14Raft", bounds="members=2,faults=1", unwind=4000, no_native=True, max_seconds=5400, reach=["settled", "restarted", "end"]),
-            dict(pkg=".", entry="VerifC14Raft", bounds="members=3,maxp=2", unwind=4000, no_native=True, max_seconds=5400, reach=["settled", "restarted", "end"]),
+            dict(pkg=".", entry="VerifC14Raft", bounds="members=2,maxp=2", unwind=4000, no_native=True, max_seconds=5400, reach=["settled", "restarted", "end"]),
+            dict(pkg=".", entry="VerifC14Raft", bounds="members=3", unwind=4000, no_native=True, max_seconds=5400, reach=["settled", "restarted", "end"]),
+            dict(pkg=".", entry="VerifC14Raft", bounds="members=3,lagdelete=1", unwind=4000, no_native=True, max_seconds=5400, reach=["settled", "restarted", "end"]),
         ],
     },
     outside="what etcd/raft does between propose and commit (the cluster harness hands every member the same committed log); re-creation of a deleted dataset under the same id (ids are server generated); partitions assigned to the local node in the state-machine harness (their raft loading is exercised by the restart harness and by C12)",
@@ -416,11 +420,12 @@ PROPS["C05"] = dict(
             dict(pkg="./storage/raft", entry="VerifC05Raft", bounds="nodes=3,faults=0,crashes=1,proposals=2,compact=1,maxflush=10", unwind=4000, no_native=True, reach=["phase1", "restarted", "end"]),
         ],
         "thorough": [
-            dict(pkg="./storage/raft", entry="VerifC05Raft", bounds="nodes=3,faults=2,proposals=2", unwind=4000, no_native=True, max_seconds=5400, reach=["phase1", "end"]),
-            dict(pkg="./storage/raft", entry="VerifC05Raft", bounds="nodes=3,faults=1,partitions=1,restarts=1,proposals=3,rounds=70", unwind=4000, no_native=True, max_seconds=5400, reach=["phase1", "restarted", "end"]),
-            dict(pkg="./storage/raft", entry="VerifC05Raft", bounds="nodes=3,faults=1,crashes=1,partitions=1,proposals=3,rounds=70,maxflush=12", unwind=4000, no_native=True, max_seconds=5400, reach=["phase1", "restarted", "end"]),
-            dict(pkg="./storage/raft", entry="VerifC05Raft", bounds="nodes=3,faults=1,proposals=2,compact=1", unwind=4000, no_native=True, reach=["phase1", "end"]),
+            dict(pkg="./storage/raft", entry="VerifC05Raft", bounds="nodes=3,faults=1,proposals=3,rounds=50", unwind=4000, no_native=True, max_seconds=5400, reach=["phase1", "end"]),
+            dict(pkg="./storage/raft", entry="VerifC05Raft", bounds="nodes=3,faults=0,crashes=1,partitions=1,proposals=3,rounds=70,maxflush=18", unwind=4000, no_native=True, max_seconds=5400, reach=["phase1", "restarted", "end"]),
+            dict(pkg="./storage/raft", entry="VerifC05Raft", bounds="nodes=3,faults=0,partitions=1,restarts=1,proposals=4,rounds=80,compact=1", unwind=4000, no_native=True, max_seconds=5400, reach=["phase1", "restarted", "snapshot-restored", "end"]),
+            dict(pkg="./storage/raft", entry="VerifC05Raft", bounds="nodes=3,faults=1,proposals=2,compact=1", unwind=4000, no_native=True, max_seconds=5400, reach=["phase1", "end"]),
             dict(pkg="./storage/raft", entry="VerifC05Raft", bounds="nodes=3,faults=0,crashes=1,partitions=1,restarts=1,proposals=3,rounds=70,compact=1,maxflush=14", unwind=4000, no_native=True, max_seconds=5400, reach=["phase1", "restarted", "end"]),
+            dict(pkg="./storage/raft", entry="VerifC05Raft", bounds="nodes=3,faults=2,proposals=1,netactions=3,rounds=24,minrounds=12,healrounds=60", unwind=4000, no_native=True, max_seconds=5400, reach=["phase1", "end"]),
             dict(pkg="./storage/raft", entry="VerifC03", bounds="readys=1,maxcommitted=1,maxentries=1,msgtypes=5", reach=["readys-handled", "end"]),
             dict(pkg="./storage/raft", entry="VerifC03", bounds="readys=2,maxmessages=1,msgtypes=3,destinations=2,maxcommitted=1,maxentries=0,snapshots=0,zerogroup=0,storedsnap=0", max_seconds=3000, reach=["readys-handled", "end"]),
             dict(pkg=".", entry="VerifC05Boot", bounds="", no_native=True, reach=["restarted", "boot-end"]),
@@ -453,6 +458,9 @@ PROPS["C20"] = dict(
             dict(pkg=".", entry="VerifC20Raft", bounds="members=3,rejoin=1", unwind=4000, no_native=True, reach=["joined", "end"]),
         ],
         "thorough": [
+            dict(pkg=".", entry="VerifC20Raft", bounds="members=3,faults=1", unwind=4000, no_native=True, max_seconds=5400, reach=["joined", "restarted", "end"]),
+            dict(pkg=".", entry="VerifC20Raft", bounds="members=3,leadercrash=1,compact=1,rejoin=1", unwind=4000, no_native=True, max_seconds=5400, reach=["joined", "restarted", "end"]),
+            dict(pkg=".", entry="VerifC20Raft", bounds="members=3,leadercrash=1,vclock=1", unwind=4000, no_native=True, max_seconds=5400, reach=["joined", "restarted", "end"]),
             dict(pkg=".", entry="VerifC20Cluster", bounds="members=3", no_native=True, reach=["joined", "restarted", "end"]),
             dict(pkg=".", entry="VerifC20Cluster", bounds="members=4,nocompact=1", no_native=True, max_seconds=3000, reach=["joined", "restarted", "end"]),
             dict(pkg=".", entry="VerifC20Restart", bounds="lives=3,maxchanges=2", no_native=True, max_seconds=3000, reach=["restarted", "end"]),
